@@ -166,4 +166,33 @@ pub fn run(rec: &mut Recorder, w: &mut World, tier: &str, seed: u64) {
             if hi == 0 { rec.sample(format!("[{}] {}", c.name, descr.iter().take(8).cloned().collect::<Vec<_>>().join(" ; "))); }
         }
     }
+    // ---- construction: the model handed to the constructor already holds rules (an adapter-level filtered
+    //      load) and the adapter reports is_filtered, so the constructor does not load: the graph must still
+    //      reflect the grouping rules the enforcer now stores ----
+    let n_ctor = (if tier == "thorough" { 400 } else { 40 }) * rec.budget as usize;
+    for c in cfgs.iter().filter(|c| !c.shared_names) {
+        for _ in 0..n_ctor {
+            rec.begin();
+            c.model.emit(rec, w);
+            let mut lines: Vec<Vec<String>> = vec![];
+            for _ in 0..1 + rng.below(4) { if c.p_rules.is_empty() { break; } let mut l = sv(&["p", "p"]); l.extend(rng.pick(&c.p_rules).clone()); if !lines.contains(&l) { lines.push(l); } }
+            for (gk, uni) in &c.g_rules { for _ in 0..1 + rng.below(4) { let mut l = vec!["g".to_string(), gk.clone()]; l.extend(rng.pick(uni).clone()); if !lines.contains(&l) { lines.push(l); } } }
+            lines.sort_by_key(|l| (l[0].clone() != "p") as u8);
+            let kind = *rng.pick(&["memory", "file", "string"]);
+            let (mem, text) = crate::c12::content(kind, &lines, &mut rng);
+            // a policy filter on the first field that leaves some rule out (so the adapter is filtered), or none
+            let fp: Vec<String> = if rng.chance(3, 4) { lines.iter().find(|l| l[0] == "p").map(|l| vec![l[2].clone()]).unwrap_or_default() } else { vec![] };
+            let fg: Vec<String> = if rng.chance(1, 3) { lines.iter().find(|l| l[0] == "g").map(|l| vec![l[2].clone()]).unwrap_or_default() } else { vec![] };
+            let r = rec.exec(w, &format!("e.newfilt\t{}\t{}\t{}\t{}\t{}", kind, enc_lists(&mem), esc(&text), enc_list(&fp), enc_list(&fg)));
+            if r != "ok" { rec.count("constructor:failed"); continue; }
+            let filtered = rec.exec(w, "e.filtered");
+            let descr = format!("Enforcer::new(model pre-filled by an adapter-level load_filtered_policy(p={:?}, g={:?}) of {:?}, that {} adapter) [is_filtered {}]", fp, fg, lines, kind, filtered);
+            let before = snapshot(rec, w, c);
+            let b = rec.exec(w, "e.build");
+            let after = snapshot(rec, w, c);
+            if b == "ok" && before != after { rec.fail("stale-role-links", format!("[{}] build_role_links changed decisions / role queries right after {} :: before {} after {}", c.name, descr, before, after)); }
+            rec.count(&format!("constructor:prefilled:filtered={}", filtered));
+            rec.nontrivial_case(&descr);
+        }
+    }
 }
